@@ -97,9 +97,11 @@ pub fn generate(rng: &mut Rng, extended: bool) -> WfRecipe {
             _ => {
                 let n = 1 + rng.below(5);
                 let mut items: Vec<Item> = Vec::new();
-                for k in 0..n {
-                    let want_text = k % 2 == 0 || rng.chance(1, 3);
-                    if want_text && !matches!(items.last(), Some(Item::Text(_))) {
+                for _k in 0..n {
+                    let last_is_text = matches!(items.last(), Some(Item::Text(_)));
+                    let last_is_comp = matches!(items.last(), Some(Item::Comp(_)));
+                    let want_text = !last_is_text && (if items.is_empty() { rng.chance(2, 3) } else { rng.chance(3, 5) });
+                    if want_text {
                         let m = 1 + rng.below(3);
                         let mut t = String::new();
                         if !items.is_empty() { t.push(' '); }
@@ -107,7 +109,8 @@ pub fn generate(rng: &mut Rng, extended: bool) -> WfRecipe {
                         t.push(' ');
                         items.push(Item::Text(t));
                     } else {
-                        if matches!(items.last(), Some(Item::Comp(_))) && rng.chance(1, 3) { items.push(Item::SoftBreak); }
+                        // two components in a row: glued, or separated by a line break only (read as one space)
+                        if last_is_comp && rng.chance(1, 2) { items.push(Item::SoftBreak); }
                         let c = component(rng, extended, &mut defs, steps_in_section, sections_done);
                         items.push(Item::Comp(c));
                     }
